@@ -5,7 +5,8 @@ demo passes without it), stores it under /verif/seeded/<seed-id>/ and runs the g
 (default: the property's quick check) against /repo with the patch applied, then reverts /repo."""
 import json, os, shutil, subprocess, sys, time
 
-ENV = dict(os.environ, GOFLAGS="-mod=mod", GOPROXY="off", GOSUMDB="off", GOTOOLCHAIN="local")
+ENV = dict(os.environ, GOFLAGS="-mod=mod", GOPROXY="off", GOSUMDB="off", GOTOOLCHAIN="local",
+           VERIF_EVIDENCE_DIR="/verif/.work/evidence_seeded", VERIF_REPLAYS_DIR="/verif/.work/replays_seeded")
 
 
 def sh(cmd, cwd=None, timeout=1800):
